@@ -35,6 +35,18 @@ def configs(tier, seed):
             for (sc, bi) in C.pick(combos, 4 if tier == 'quick' else 12, rng):
                 out.append(dict(part='store', signed=s, n_word=n, n_frac=f, rounding=r, overflow=o, scale=sc, bias=bi,
                                 entry=rng.choice(('ctor', 'set_val', 'call'))))
+    # integer carriers (Python int): the transformed value (v-b)/s has fractional bits the integer input does not show
+    P2 = [2.0, 0.5, -0.5, 4, 1]
+    for (s, n, f) in C.pick([q for q in fm if q[2] >= 1], 16 if tier == 'quick' else 60, rng):
+        for (sc, bi) in C.pick([(a, b) for a in P2 for b in BIASES if not (a == 1 and b == 0)], 3 if tier == 'quick' else 10, rng):
+            r, o = rng.choice(C.modes())
+            out.append(dict(part='store', signed=s, n_word=n, n_frac=f, rounding=r, overflow=o, scale=sc, bias=bi,
+                            entry=rng.choice(('ctor', 'set_val', 'call')), carrier='int'))
+    for _ in range(10 if tier == 'quick' else 60):
+        sc, bi = rng.choice(P2), rng.choice(BIASES)
+        if sc == 1 and bi == 0:
+            continue
+        out.append(dict(part='infer', signed=rng.choice((True, False, None)), scale=sc, bias=bi, f0=0, carrier='int'))
     for (s, n, f) in C.pick(fm, 12 if tier == 'quick' else len(fm), rng):
         sc, bi = rng.choice([x for x in SCALES if x != 1]), rng.choice(BIASES)
         out.append(dict(part='rawwrite', signed=s, n_word=n, n_frac=f, scale=sc, bias=bi))
@@ -51,6 +63,14 @@ def cost(cfg):
 
 
 def inputs(cfg):
+    if cfg.get('carrier') == 'int':
+        # the stored number itself is the symbolic input: a Python int v; t = (v - b) / s is dyadic (power-of-two scale)
+        if cfg['part'] == 'infer':
+            return {'vi': dict(kind='int', lo=-100, hi=100)}
+        lo, hi = SP.limits(cfg['signed'], cfg['n_word'])
+        span = 3 * (hi - lo + 1)
+        m = int(abs(Fraction(cfg['scale'])) * Fraction(span, 1 << cfg['n_frac'])) + int(abs(Fraction(cfg['bias']))) + 2
+        return {'vi': dict(kind='int', lo=-m, hi=m)}
     if cfg['part'] == 'infer':
         lo = -(1 << 7) + 1 if cfg['signed'] is not False else 0
         return {'k': dict(kind='float', lo=lo, hi=(1 << 7) - 1, exp=-cfg['f0'])}
@@ -61,6 +81,25 @@ def inputs(cfg):
     span = (hi - lo + 1)
     m = (3 * span) << G
     return {'t': dict(kind='float', lo=-m, hi=m, exp=-(f + G))}
+
+
+def _t_of_int(cfg, v):
+    """exact dyadic (num, exp) of (v - b) / s for an integer v, dyadic b and s = +-2^j"""
+    S, B = _fr(cfg['scale']), _fr(cfg['bias'])
+    eb = B.denominator.bit_length() - 1
+    num = T.isub(T.ishl(v, eb), B.numerator)                 # (v - b) * 2^eb
+    sign = 1 if S > 0 else -1
+    a = abs(S)
+    j = (a.numerator.bit_length() - 1) - (a.denominator.bit_length() - 1)
+    assert a == Fraction(2) ** j, 'integer carriers are driven with power-of-two scales only'
+    return (num if sign > 0 else T.ineg(num)), -eb - j
+
+
+def assume(cfg, inp):
+    if cfg['part'] == 'infer' and cfg.get('carrier') == 'int' and cfg['signed'] is False:
+        num, _ = _t_of_int(cfg, inp['vi'])
+        return T.icmp(num, 0, '>=')                  # an unsigned format is inferred for non-negative transformed values only
+    return True
 
 
 def _v_of(F, cfg, t):
@@ -75,7 +114,7 @@ def _v_of(F, cfg, t):
 def run(F, cfg, inp):
     sc, bi = cfg['scale'], cfg['bias']
     if cfg['part'] == 'infer':
-        v = _v_of(F, cfg, inp['k'])
+        v = inp['vi'] if cfg.get('carrier') == 'int' else _v_of(F, cfg, inp['k'])
         kw = {} if cfg['signed'] is None else dict(signed=cfg['signed'])
         x = F.Fxp(v, scale=sc, bias=bi, **kw)
         return dict(val=O.snap(x.val), value=O.snap(x.get_val()), fmt=C.fmt_of(x), status={k: bool(v_) for k, v_ in x.status.items()})
@@ -89,7 +128,7 @@ def run(F, cfg, inp):
         ob.update(val2=O.snap(x.val), value2=O.snap(x.get_val()), upper=x.upper, lower=x.lower, precision=x.precision)
         return ob
     kw = dict(rounding=cfg['rounding'], overflow=cfg['overflow'], scale=sc, bias=bi)
-    v = _v_of(F, cfg, inp['t'])
+    v = inp['vi'] if cfg.get('carrier') == 'int' else _v_of(F, cfg, inp['t'])
     if cfg['entry'] == 'ctor':
         x = F.Fxp(v, s, n, f, **kw)
     elif cfg['entry'] == 'call':
@@ -133,14 +172,14 @@ def post(cfg, inp, ob):
                 ('precision_mapped_through_scale_only', _fr(ob['precision']) == S * lsb)]
     st = ob['status']
     if cfg['part'] == 'infer':
-        t = inp['k']
+        t = _t_of_int(cfg, inp['vi']) if cfg.get('carrier') == 'int' else inp['k']
         s, n, f = ob['fmt']
         out = [('no_flag', not (st['overflow'] or st['underflow'] or st['inaccuracy'])),
                ('transformed_value_represented_exactly', SP.dy_eq((code, -f), SP.dy(t))),
                ('read_back_is_affine_image', SP.dy_eq(SP.dy(rd), _affine(code, f, sc, bi)))]
         return out
     s, n, f, r, o = cfg['signed'], cfg['n_word'], cfg['n_frac'], cfg['rounding'], cfg['overflow']
-    t = inp['t']
+    t = _t_of_int(cfg, inp['vi']) if cfg.get('carrier') == 'int' else inp['t']
     want = SP.Q(t, s, n, f, r, o)
     out = [('format_kept', ob['fmt'] == [s, n, f]),
            ('code_is_quantised_transformed_value', T.icmp(code, want, '==')),
